@@ -49,7 +49,7 @@ def plan(tier, seed):
         for metric in ('EUCLIDEAN', 'MANHATTAN'):
             for b in range(nblk):
                 out.append(('exh', '%d,%d,%d,%d,%s' % (h, w, b, nblk, metric)))
-    n = 1200 if tier == 'quick' else 12000
+    n = 850 if tier == 'quick' else 12000
     out += [('api', i) for i in range(n)]
     return out
 
